@@ -462,6 +462,9 @@ func (se *specEnv) binary(n *SBin) Value {
 	if !ok {
 		se.fail("unknown operator %s", n.Op)
 	}
+	if sa.T.Sort == sortStr && n.Op == "+" {
+		return Scalar{T: c.App("str_cat", sortStr, sa.T, sb.T), Typ: types.Typ[types.String]}
+	}
 	if sa.T.Sort.IsUninterp() {
 		// ordering on abstract sorts (time instants): uninterpreted strict order
 		lt := func(x, y *smt.Term) *smt.Term { return c.App("lt_"+x.Sort.Name, smt.Bool, x, y) }
@@ -918,6 +921,12 @@ func (se *specEnv) call(n *SCall) Value {
 		}
 		T := map[int]types.Type{16: types.Typ[types.Uint16], 32: types.Typ[types.Uint32], 64: types.Typ[types.Uint64]}[w]
 		return Scalar{T: t, Typ: T}
+	case "hexenc":
+		sq, ok := se.eval(n.Args[0]).(*SeqV)
+		if !ok {
+			se.fail("hexenc of non-sequence")
+		}
+		return Scalar{T: e.hexEncode(se.st, sq), Typ: types.Typ[types.String]}
 	case "fresh":
 		return boolV(se.freshPred(se.eval(n.Args[0]), n))
 	case "typeis":
@@ -976,6 +985,25 @@ func (se *specEnv) call(n *SCall) Value {
 			v := se.eval(n.Args[i])
 			argv = append(argv, v)
 			sub.bound[p] = v
+		}
+		if m.Opaque && !e.revealed(m.Name) {
+			var keys []*smt.Term
+			ok := true
+			for _, v := range argv {
+				k := e.opaqueKey(v)
+				if k == nil {
+					ok = false
+					break
+				}
+				keys = append(keys, k)
+			}
+			if ok {
+				name := "opq_" + m.Name
+				for _, k := range keys {
+					name += "_" + smt.Sanitize(k.Sort.String())
+				}
+				return boolV(c.App(name, smt.Bool, keys...))
+			}
 		}
 		// macro bodies see only their parameters plus globals of the spec
 		res := sub.eval(m.Body)
@@ -1204,4 +1232,53 @@ func (se *specEnv) nilLike(v, other Value) Value {
 		return se.e.zero(o.Typ)
 	}
 	return v
+}
+
+// hexEncode models hex.EncodeToString: for sequences of a small constant
+// length it is an uninterpreted function of the bytes themselves, otherwise of
+// the named sequence.
+func (e *Exec) hexEncode(st *State, sq *SeqV) *smt.Term {
+	c := e.C
+	if sq.Len.Op == "bv" && sq.Len.Val <= 8 {
+		var bs []*smt.Term
+		for i := uint64(0); i < sq.Len.Val; i++ {
+			bs = append(bs, sq.Read(bv64(c, int64(i))))
+		}
+		if len(bs) == 0 {
+			return e.strLit("")
+		}
+		return c.App(fmt.Sprintf("hex_encode%d", len(bs)), sortStr, bs...)
+	}
+	return c.App("hex_encode", sortStr, e.seqTerm(st, sq))
+}
+
+func (e *Exec) revealed(name string) bool {
+	if e.Spec == nil {
+		return false
+	}
+	for _, r := range e.Spec.Reveal {
+		if r == name {
+			return true
+		}
+	}
+	return false
+}
+
+// opaqueKey is the identity of a value as an argument of an opaque predicate
+// (nil when the value has no stable identity).
+func (e *Exec) opaqueKey(v Value) *smt.Term {
+	c := e.C
+	switch x := v.(type) {
+	case Scalar:
+		return x.T
+	case Untyped:
+		return bv64(c, x.V)
+	case *StructV:
+		return x.Origin
+	case *SliceV:
+		return c.App("slkey", refSort, e.sliceBaseAddr(x), x.Len)
+	case *PtrV:
+		return e.ptrAddr(x)
+	}
+	return nil
 }
